@@ -40,11 +40,14 @@ SHARDS.update({
     "urwid/vterm.py:TermCanvas.insert_chars": (4, 4),
     "urwid/vterm.py:TermCanvas.remove_chars": (4, 4),
     "urwid/vterm.py:TermCanvas.erase": (6, 4),
+    "urwid/vterm.py:TermCanvas.parse_csi": (8, 2),
+    "urwid/vterm.py:TermCanvas.set_tabstop": (4, 4),
 })
 
 # Solver-strategy flags per contract file (no semantic content).
 MODULE_FLAGS = {
     "contracts.C15_vterm": {"qf_forall_only": True},
+    "contracts.C15_parser": {"qf_forall_only": True},
 }
 
 SHARDS.update({
@@ -65,6 +68,12 @@ SHARDS.update({
     "urwid/widget/edit.py:Edit.keypress": (6, 5),
 })
 
+SHARDS.update({
+    "urwid/widget/overlay.py:Overlay.render#fixed": (4, 4),
+    "urwid/widget/overlay.py:Overlay.render#flow": (4, 4),
+    "urwid/widget/padding.py:Padding.render#fixed": (4, 4),
+})
+
 # A contract written for one property also serves the others whose statement depends on the same function
 # (the check of each listed property verifies it too).  Keys are registry keys or "module:<contract module>".
 ALSO_SERVES = {
@@ -73,6 +82,7 @@ ALSO_SERVES = {
     "C01": ["urwid/widget/scrollable.py:Scrollable.render", "urwid/widget/scrollable.py:Scrollable._adjust_trim_top", "urwid/widget/scrollable.py:ScrollBar.render"],
     "C07": ["module:contracts.C08_listbox",        # ListBox focus handling
             "module:contracts.C16_focuslist"],     # "insertions or deletions in the list": SimpleFocusListWalker is a MonitoredFocusList
+    "C20": ["urwid/canvas.py:cview_trim_top", "urwid/canvas.py:cview_trim_rows", "urwid/canvas.py:cview_trim_cols", "urwid/canvas.py:cview_trim_left"],  # the slice a Scrollable shows is cut with these
     "C10": ["module:contracts.C14_signals"],       # 'change' / 'postchange' are delivered by Signals.emit / _call_callback
     "C06": ["urwid/canvas.py:CompositeCanvas.trim#real-fields", "urwid/canvas.py:CompositeCanvas.trim_end#real-fields",
             # a cached (finalized) canvas refuses to be padded / trimmed, and padding a wrapper never writes to the lists it shares with the cached canvas
@@ -81,6 +91,12 @@ ALSO_SERVES = {
     "C03": ["urwid/util.py:calc_trim_text", "urwid/str_util.py:calc_text_pos", "urwid/str_util.py:calc_width"],
     "C04": ["urwid/util.py:calc_trim_text"],
 }
+# draw_screen's skip-unchanged-rows test (`osb[y] == row`), its attribute-switch test (`last_attributes != a`) and the
+# `a in self._pal_escape` lookup are AttrSpec.__eq__ / __hash__ when AttrSpec objects are canvas attributes; AttrMap's
+# attribute dictionaries are keyed by them too: equal exactly when the packed words are equal, hash a function of the word.
+_ATTRSPEC_IDENTITY = ["urwid/display/common.py:AttrSpec.__eq__", "urwid/display/common.py:AttrSpec.__hash__", "lemma:equal-attrspecs-have-equal-hashes"]
+ALSO_SERVES["C04"] = ALSO_SERVES["C04"] + _ATTRSPEC_IDENTITY
+ALSO_SERVES["C17"] = ALSO_SERVES["C17"] + _ATTRSPEC_IDENTITY
 
 SHARDS.update({
     "urwid/widget/listbox.py:ListBox.calculate_visible": (16, 14),
